@@ -2147,6 +2147,68 @@ func (c *Ctx) progressRule(reach []*core.FuncInfo) {
 			"the pass reports progress only in the block that deletes a definition (whose key is a member of the map by ENC-MAPKEY): each repeating pass strictly shrinks the definitions",
 			why+": the removal loop can repeat without shrinking the definitions (non-termination) or stop early")
 		c.fixpointCond(fi, reach)
+		// the converse: every deletion is reported — the flag is raised in the block of the deletion, with no
+		// conditional exit (continue, break, return) between the two: a deletion that is not reported ends the
+		// removal loop while definitions that just became unused are still there
+		if n > 0 {
+			for di, d := range dels {
+				blk, _ := pm[pm.EnclosingStmt(d)].(*ast.BlockStmt)
+				reported := false
+				if blk != nil {
+					dpos := pm.EnclosingStmt(d).Pos()
+					for _, st := range blk.List {
+						as, isAs := st.(*ast.AssignStmt)
+						if !isAs || len(as.Lhs) != 1 || len(as.Rhs) != 1 {
+							continue
+						}
+						if tv, isC := info.Types[as.Rhs[0]]; !isC || tv.Value == nil || tv.Value.String() != "true" || !c.flowsToReturn(fi, as.Lhs[0]) {
+							continue
+						}
+						lo, hi := dpos, as.Pos()
+						if lo > hi {
+							lo, hi = hi, lo
+						}
+						exits := false
+						for _, mid := range blk.List {
+							if mid.Pos() <= lo || mid.Pos() >= hi {
+								continue
+							}
+							ast.Inspect(mid, func(x ast.Node) bool {
+								switch x.(type) {
+								case *ast.BranchStmt, *ast.ReturnStmt:
+									exits = true
+								case *ast.FuncLit:
+									return false
+								}
+								return true
+							})
+						}
+						if !exits {
+							reported = true
+						}
+					}
+				}
+				if !reported {
+					// the flag may be computed for the whole pass instead (flag := len(M) > 0 over the loop's collection)
+					ast.Inspect(fi.Decl.Body, func(x ast.Node) bool {
+						if as, isAs := x.(*ast.AssignStmt); isAs && len(as.Lhs) == 1 && len(as.Rhs) == 1 && c.flowsToReturn(fi, as.Lhs[0]) {
+							if _, empty, isLen := core.EmptyTest(info, core.Cond{Kind: core.CondBool, Expr: as.Rhs[0]}); isLen && !empty {
+								reported = true
+							}
+						}
+						if ret, isRet := x.(*ast.ReturnStmt); isRet && len(ret.Results) == 1 {
+							if _, empty, isLen := core.EmptyTest(info, core.Cond{Kind: core.CondBool, Expr: ret.Results[0]}); isLen && !empty {
+								reported = true
+							}
+						}
+						return true
+					})
+				}
+				c.S.Decide(reported, "C06", "TERM-PROGRESS", fmt.Sprintf("%s/reported#%d", fi.QName(), di+1), c.P.Pos(d.Pos()),
+					"the deletion is reported to the removal loop (the flag is raised next to it, unconditionally)",
+					"this deletion of a definition is not always reported: the progress flag is raised behind a conditional exit (or not in the block of the deletion), so the removal loop can stop while definitions that only just became unused are still in the document")
+			}
+		}
 	}
 	if !found {
 		c.S.Undecided("C06", "TERM-PROGRESS", "anchor", "-", "no bool-returning pass deleting from a Definitions map found below Flatten")
